@@ -54,7 +54,7 @@ CLAIMS = {
     note="Trusted: loop/counter extraction on Analysis(Initial) MIR (tracing expansions ignored via from_expansion); f64::min/max absorb NaN.",
     technique="loop-counter extraction and closed form (E-table), clamp-presence slices (E-slice), edge gating", ref="§3 C14"),
  "C15": dict(
-    text="Decides: no explicit panic reachable from server entry points; every socket read under a timeout and a size bound; one spawned task per connection and no error edge leaves the accept loop; header/row column arity equal and typed columns fed by validated fields (syn AST of format! templates + MIR of BuildRecord::validate); newest build = descending build_time; request arity tests are equalities. End-to-end field equality is not decided. Also: a count-returning read in a loop leaves the loop on its own Ok(0); a response cell is the database field itself (only borrowing / defaulting adaptors); nothing is awaited between accept() and spawn; the product is looked up verbatim.",
+    text="Decides: no explicit panic reachable from server entry points; every socket read under a timeout and a size bound; one spawned task per connection and no error edge leaves the accept loop; header/row column arity equal and typed columns fed by validated fields (syn AST of format! templates + MIR of BuildRecord::validate); newest build = descending build_time; request arity tests are equalities. End-to-end field equality is not decided. Also: a count-returning read in a loop leaves the loop on its own Ok(0); a response cell is the database field itself (only borrowing / defaulting adaptors); nothing is awaited between accept() and spawn; the product is looked up verbatim; every index / range operation in the server closure is proven in bounds (E-bounds).",
     note="Trusted: astx (syn) template extraction; field-to-validator mapping from MIR slices; config-derived columns are outside the quantifier and only reported as information.",
     technique="call-graph reachability, dominator analysis, AST template/arity matching joined with MIR validator slices (E-ast)", ref="§3 C15"),
  "C16": dict(
